@@ -22,6 +22,20 @@ def _samples(symbols, n, seed=20240607):
     return out
 
 
+BIG = 600      # operation count above which the simplifier is not attempted (it may run for a very long time)
+
+
+def simp(expr):
+    """sp.simplify with a size guard: big expressions (and matrices with a big entry) are returned as they are."""
+    try:
+        n = sum(sp.count_ops(e) for e in expr) if isinstance(expr, sp.MatrixBase) else sp.count_ops(expr)
+    except Exception:
+        return expr
+    if n > BIG:
+        return expr
+    return sp.simplify(expr)
+
+
 def decide_zero(expr, tries=6):
     """('zero', None) | ('nonzero', witness env, value) | ('unknown', reason)."""
     if isinstance(expr, sp.MatrixBase):
@@ -37,7 +51,7 @@ def decide_zero(expr, tries=6):
     if expr == 0:
         return ('zero', None)
     try:
-        s = sp.simplify(expr)
+        s = simp(expr)
     except Exception:
         s = expr
     if s == 0:
